@@ -6,12 +6,19 @@
 // covered: the replica list of every section is checked (GetN is a function of the section a hash falls into;
 // this is cross-checked on a series family that includes the wrap-around), and section tables of rings built from
 // permuted endpoint lists are compared section by section. For hashmod the series family covers every residue.
+//
+// The series family has a SIZE dimension (sized_test.go: encoded tenant+labels just below, at and above the 1024
+// byte buffer of labelpb.HashWithPrefix and much larger, in several shapes, long tenant ids included) and every
+// configuration is asked in several HISTORIES (repeat.go part of eval): a lookup that is repeated, asked for one
+// replica in isolation, interleaved with other series or made through a reused request object must give the
+// same endpoint, because the placement may depend on nothing but tenant, labels and the endpoint set.
 package c18
 
 import (
 	"fmt"
 	"iter"
 	"sort"
+	"strings"
 	"sync"
 	"testing"
 	"time"
@@ -284,7 +291,31 @@ func unbalanceableHangs() bool {
 	return sentinelHangs
 }
 
-type checker struct{ r *vlib.R }
+type checker struct {
+	r     *vlib.R
+	sized []sized // the size dimension of the series family (sized_test.go)
+}
+
+func addrs(es []receive.Endpoint) []string {
+	out := make([]string, len(es))
+	for i, e := range es {
+		out[i] = e.Address
+	}
+	return out
+}
+
+// eval runs one configuration; a panic of the code under test is a counter-example, not a crash of the check.
+func (k *checker) eval(c Case) {
+	defer func() {
+		if p := recover(); p != nil {
+			if s, ok := p.(string); ok && strings.HasPrefix(s, "HARNESS-ERROR") {
+				panic(p)
+			}
+			k.r.Violation("hashring-panics", fmt.Sprintf("panic while building or asking the ring: %v", p), c)
+		}
+	}()
+	k.evalConfig(c)
+}
 
 // checkPlacement applies the per-placement part of the oracle to one replica list.
 func (k *checker) checkPlacement(c Case, ix nodeIndex, where func() string, reps []receive.Endpoint, zones []int, balanceable bool) bool {
@@ -319,7 +350,7 @@ func (k *checker) checkPlacement(c Case, ix nodeIndex, where func() string, reps
 	return true
 }
 
-func (k *checker) eval(c Case) {
+func (k *checker) evalConfig(c Case) {
 	r := k.r
 	if r.Expired("configurations left unevaluated") {
 		return
@@ -352,13 +383,14 @@ func (k *checker) eval(c Case) {
 	if c.Alg == "ketama" {
 		secs = receive.VerifC18Sections(base)
 		if len(secs) != n*receive.SectionsPerNode {
-			r.T.Fatalf("HARNESS-ERROR section table has %d entries for %d nodes", len(secs), n)
+			panic(fmt.Sprintf("HARNESS-ERROR section table has %d entries for %d nodes", len(secs), n))
 		}
 	}
 	type probe struct {
 		tenant string
 		ts     *prompb.TimeSeries
 		hash   uint64
+		desc   string // short description for messages (sized series are too long to print)
 	}
 	var probes []probe
 	for _, tn := range tenants {
@@ -385,7 +417,7 @@ func (k *checker) eval(c Case) {
 				cls = fmt.Sprint("residue-", h%uint64(n))
 			}
 			if i < 12 || need[cls] {
-				probes = append(probes, probe{tn, ts, h})
+				probes = append(probes, probe{tn, ts, h, fmt.Sprintf("tenant %q series %v", tn, ts.Labels)})
 			}
 			delete(need, cls)
 		}
@@ -393,21 +425,26 @@ func (k *checker) eval(c Case) {
 			r.Cap(fmt.Sprintf("no series found for %v", need))
 		}
 	}
-	want := make([]uint64, len(probes)) // replica sets on the base ring
+	for _, s := range k.sized { // the size dimension: the same for every configuration
+		probes = append(probes, probe{s.tenant, &prompb.TimeSeries{Labels: s.labels}, labelpb.HashWithPrefix(s.tenant, s.labels), s.desc})
+	}
+	r.Add("lookups_of_sized_series_(configurations_x_series)", int64(len(k.sized)))
+	want := make([]uint64, len(probes))               // replica sets on the base ring
+	first := make([][]receive.Endpoint, len(probes)) // replica lists on the base ring, as first answered
 	for pi, p := range probes {
 		var reps []receive.Endpoint
 		for i := 0; i < c.RF; i++ {
 			e, err := base.GetN(p.tenant, p.ts, uint64(i))
 			if err != nil {
-				r.Violation("getn-error-below-replication-factor", fmt.Sprintf("GetN(%q, series %v, %d): %v", p.tenant, p.ts.Labels, i, err), c)
+				r.Violation("getn-error-below-replication-factor", fmt.Sprintf("GetN(%s, %d): %v", p.desc, i, err), c)
 				return
 			}
 			reps = append(reps, e)
 		}
-		if !k.checkPlacement(c, ix, func() string { return fmt.Sprintf("GetN tenant %q series %v", p.tenant, p.ts.Labels) }, reps, zones, balanceable) {
+		if !k.checkPlacement(c, ix, func() string { return "GetN " + p.desc }, reps, zones, balanceable) {
 			return
 		}
-		want[pi] = ix.set(reps)
+		want[pi], first[pi] = ix.set(reps), reps
 		if c.Alg == "ketama" {
 			// GetN must be the replica list of the first section at or after the hash (wrapping): this is what makes
 			// the walk over all sections below exhaustive for GetN.
@@ -417,10 +454,58 @@ func (k *checker) eval(c Case) {
 			}
 			if len(secs[si].Replicas) < c.RF || ix.set(secs[si].Replicas[:c.RF]) != want[pi] {
 				r.Cap("GetN does not answer from the successor section's replica list: the section walk is not representative")
-				r.Note("GetN(%q,%v) = node set %b but successor section %d holds %v", p.tenant, p.ts.Labels, want[pi], si, secs[si].Replicas)
+				r.Note("GetN(%s) = node set %b but successor section %d holds %v", p.desc, want[pi], si, secs[si].Replicas)
 			}
 		}
 	}
+	// ---- histories on the same ring: the answer to GetN(tenant, series, n) may not depend on what was asked before,
+	// on which replicas of the series were asked, or on the objects that carry tenant and labels.
+	differs := func(history string, pi, n int, got receive.Endpoint) bool {
+		if got == first[pi][n] {
+			return false
+		}
+		r.Violation("placement-differs-when-the-lookup-is-repeated",
+			fmt.Sprintf("same ring, GetN(%s, %d) answered %s first and %s when %s (first replica list %v)", probes[pi].desc, n, first[pi][n].Address, got.Address, history, addrs(first[pi])), c)
+		return true
+	}
+	// H1: every lookup twice in a row, series in the same order as before.
+	for pi, p := range probes {
+		for n := 0; n < c.RF; n++ {
+			for rep := 0; rep < 2; rep++ {
+				e, err := base.GetN(p.tenant, p.ts, uint64(n))
+				if err != nil {
+					r.Violation("getn-error-below-replication-factor", fmt.Sprintf("repeated GetN(%s, %d): %v", p.desc, n, err), c)
+					return
+				}
+				if differs("asked again (twice in a row, after all series had been looked up once)", pi, n, e) {
+					return
+				}
+			}
+		}
+	}
+	// H2: one replica at a time, highest replica first, series in reverse order (all other series are looked up
+	// between two replicas of a series), through ONE request object whose label array is overwritten in place
+	// with equal copies of tenant and labels (what a handler that recycles its request buffers does).
+	scratch := &prompb.TimeSeries{}
+	for n := c.RF - 1; n >= 0; n-- {
+		for pi := len(probes) - 1; pi >= 0; pi-- {
+			p := probes[pi]
+			scratch.Labels = scratch.Labels[:0]
+			for _, l := range p.ts.Labels {
+				scratch.Labels = append(scratch.Labels, labelpb.ZLabel{Name: strings.Clone(l.Name), Value: strings.Clone(l.Value)})
+			}
+			e, err := base.GetN(strings.Clone(p.tenant), scratch, uint64(n))
+			if err != nil {
+				r.Violation("getn-error-below-replication-factor", fmt.Sprintf("interleaved GetN(%s, %d): %v", p.desc, n, err), c)
+				return
+			}
+			if differs("asked for this replica alone, interleaved with the other series, through a reused request object holding an equal copy of tenant and labels", pi, n, e) {
+				return
+			}
+		}
+	}
+	r.Add("repeated_lookups_compared", int64(3*len(probes)*c.RF))
+
 	// ---- every section of the ring
 	for si, s := range secs {
 		if len(s.Replicas) < c.RF {
@@ -446,14 +531,14 @@ func (k *checker) eval(c Case) {
 			for i := 0; i < c.RF; i++ {
 				e, err := h.GetN(p.tenant, p.ts, uint64(i))
 				if err != nil {
-					r.Violation("getn-error-below-replication-factor", fmt.Sprintf("order %v: GetN(%q, series %v, %d): %v", o, p.tenant, p.ts.Labels, i, err), c)
+					r.Violation("getn-error-below-replication-factor", fmt.Sprintf("order %v: GetN(%s, %d): %v", o, p.desc, i, err), c)
 					return
 				}
 				reps = append(reps, e)
 			}
 			if got := ix.set(reps); got != want[pi] {
 				r.Violation(c.Alg+"-placement-depends-on-endpoint-list-order",
-					fmt.Sprintf("tenant %q series %v: endpoint order %v gives node set %b, order %v gives node set %b", p.tenant, p.ts.Labels, ords[0], want[pi], o, got), c)
+					fmt.Sprintf("%s: endpoint order %v gives node set %b, order %v gives node set %b", p.desc, ords[0], want[pi], o, got), c)
 				return
 			}
 		}
@@ -485,12 +570,28 @@ func TestCheck(t *testing.T) {
 	const maxRF = 5
 	r.Rule(fmt.Sprintf("ketama: 1..%d nodes, no az or every assignment of the nodes to <= %d zones (n <= %d; above: every multiset of zone sizes, blockwise and round-robin), RF 1..min(%d,n); "+
 		"hashmod: 1..%d nodes without az. Per configuration: every section of the ring, a series family incl. wrap-around / every residue for tenants \"\" and \"t\", and all endpoint list orders "+
-		"(n <= 4; above: rebuild, rotations, reversal, adjacent transpositions). Non-trivial = ketama with >= 2 zones and RF >= 2", maxN, maxZones, fullN, maxRF, maxN))
+		"(n <= 4; above: rebuild, rotations, reversal, adjacent transpositions). The series family has a size dimension (encoded tenant+labels below/at/above the 1024 byte hash buffer and far above, "+
+		"wide last / wide first / many medium labels / long tenant) and every lookup is repeated in two further histories on the same ring (twice in a row; single replicas in reverse order, interleaved, "+
+		"through a reused request object). Non-trivial = ketama with >= 2 zones and RF >= 2", maxN, maxZones, fullN, maxRF, maxN))
 	r.Assume("endpoint addresses are pairwise different (a set of endpoints); all endpoints of a configuration either carry an az or none does",
 		"\"zones can accommodate\" = with q=RF div Z, r=RF mod Z every zone has >= q nodes and at least r zones have >= q+1 nodes; for other layouts only distinctness and order independence are asserted",
 		"zone layouts that cannot be balanced for the RF are only part of the space when the tree can construct them (see C19: the unfixed constructor does not return for them)")
-	k := &checker{r: r}
-	vlib.ForEach(r, gen(fullN, maxN, maxZones, maxRF), k.eval)
+	sizes := vlib.Pick(r, []int{1022, 1023, 1024, 1025, 2049, 8192}, []int{1000, 1021, 1022, 1023, 1024, 1025, 1026, 1536, 2049, 4096, 8192, 65536})
+	tenantLens := vlib.Pick(r, []int{1022, 1023, 1024, 1025, 2049}, []int{1000, 1021, 1022, 1023, 1024, 1025, 1026, 2049, 4096})
+	k := &checker{r: r, sized: sizedFamily(sizes, tenantLens)}
+	below, atOrAbove := 0, 0
+	for _, s := range k.sized {
+		if s.enc < hashBuffer {
+			below++
+		} else {
+			atOrAbove++
+		}
+	}
+	r.Set("sized_series", map[string]any{"encoded_sizes": sizes, "tenant_lengths": tenantLens, "series": len(k.sized), "encoded_below_1024": below, "encoded_at_or_above_1024": atOrAbove})
+	if below < 2 || atOrAbove < 2 {
+		panic("HARNESS-ERROR the sized series family does not cover both sides of the hash buffer")
+	}
+	forEach(r, gen(fullN, maxN, maxZones, maxRF), k.eval)
 	if sentinelHangs {
 		r.Note("the constructor does not return for zones {1,3} RF 4 (C19 finding): configurations with RF above the AZ spread capacity were left out")
 	}
